@@ -101,3 +101,147 @@ Proof.
   cbv zeta. repeat split; intros; try (rewrite ?Nat2Z.inj_add; ring).
 Qed.
 Print Assumptions C18_exact_contract_satisfiable.
+
+(* [ext-C18X] the driver as a state machine over an abstract state type (Driver/RunState.v): the results array
+   in the layout of the code (one row per operator, the time row last), objects and references (the caller's
+   object IS `_initial_state`; `state` is a deep copy), run / reset / run again, accessors, bond-dimension record.
+   All statements hold for every state type, step function, operator type and evaluation function.
+   (Several statements share one theorem: every Print Assumptions re-traverses the whole cone.) *)
+From PTN Require Import Driver.RunState Driver.RunStateProofs.
+
+(* (1) one run from any driver state, interval k >= 1 or 'inf': the array is table_of (closed form, see
+   C18_run_record_layout), the driver's own state object holds the state after n steps, no other object is written,
+   the bond-dimension record is extended by one snapshot per evaluated time step;
+   (2) the only exception a command can raise: interval 0 (ZeroDivisionError of init_results, before any assignment) *)
+Theorem C18_run_record : forall (St Op V K : Type) (step : St -> St) (eval : Op -> St -> V) (bdims : St -> list nat),
+  (forall (d : driver St Op V K) (e : evalt), valid e ->
+  exists d', exec St Op V K step eval bdims (Run e) d = Some d' /\
+    results d' = Some (table_of St Op V step eval (d_ops d) (nsteps d) e (heap d (state_ref d))) /\
+    heap d' (state_ref d') = iter St step (nsteps d) (heap d (state_ref d)) /\
+    (forall a, a <> state_ref d -> heap d' a = heap d a) /\
+    state_ref d' = state_ref d /\ init_ref d' = init_ref d /\ next d' = next d /\
+    nsteps d' = nsteps d /\ d_ops d' = d_ops d /\ d_keys d' = d_keys d /\
+    bond d' = bond_after St bdims (map (fun i => iter St step i (heap d (state_ref d))) (eval_steps (nsteps d) e)) (bond d)) /\
+  (forall (c : cmd) (d : driver St Op V K),
+  exec St Op V K step eval bdims c d = None <-> c = Run (Every 0)).
+Proof. exact (fun St Op V K step eval bdims => conj (run_record St Op V K step eval bdims) (exec_none_iff St Op V K step eval bdims)). Qed.
+Print Assumptions C18_run_record.
+
+(* layout of that array: (1) len(ops)+1 rows of n/k+1 (resp. 1) entries, row r belongs to the r-th operator, the
+   last row is the time row; (2) column j of operator o holds eval o (step^(j*k) s), column j of the time row the time
+   index j*k, for exactly the allocated columns j <= n/k; (3) what the code does when k does not divide n: the last
+   column is the state after n - n mod k steps; it is the final state exactly when k divides n (the remaining
+   n mod k steps are performed but not recorded) *)
+Theorem C18_run_record_layout : forall (St Op V : Type) (step : St -> St) (eval : Op -> St -> V),
+  (forall (ops : list Op) (n : nat) (e : evalt) (s : St),
+  length (table_of St Op V step eval ops n e s) = length ops + 1 /\
+  (forall row, In row (table_of St Op V step eval ops n e s) -> length row = width n e) /\
+  (forall r o0, r < length ops ->
+     nth_error (table_of St Op V step eval ops n e s) r = Some (op_row St Op V step eval n e s (nth r ops o0))) /\
+  nth_error (table_of St Op V step eval ops n e s) (length ops) = Some (time_row V n e)) /\
+  (forall (n k : nat) (s : St) (o : Op) (j : nat), j <= n / k ->
+  nth_error (op_row St Op V step eval n (Every k) s o) j = Some (CVal (eval o (iter St step (j * k) s))) /\
+  nth_error (time_row V n (Every k)) j = Some (CTime (j * k))) /\
+  (forall n k : nat, 1 <= k -> n / k * k = n - n mod k /\ (n / k * k = n <-> n mod k = 0)).
+Proof. exact (fun St Op V step eval => conj (table_of_shape St Op V step eval) (conj (op_row_every_col St Op V step eval) last_column_step)). Qed.
+Print Assumptions C18_run_record_layout.
+
+(* ownership.  THIS IS A PROPERTY OF THE MODEL'S OBJECT STRUCTURE: in the model `__init__` stores the caller's
+   reference as init_ref and a copy at a fresh address as state_ref, a run writes only at state_ref and a reset only
+   at a fresh address.  That the code has this structure (deepcopy in __init__ and in reset_to_initial_state, steps
+   working on self.state only) is checked by the tie (object identities and contents after every command), not proved.
+   Under it: (1) no history of run / reset commands (raising ones included) changes an object that existed when the
+   driver was constructed, in particular not the caller's; (2) `_initial_state` is the caller's object, not a copy:
+   when the caller changes it later (f), a reset restores the CHANGED content *)
+Theorem C18_caller_state_untouched : forall (St Op V K : Type) (step : St -> St) (eval : Op -> St -> V)
+    (bdims : St -> list nat) (h : nat -> St) (nx caller n : nat) (c : container Op K) (record : bool),
+  caller < nx ->
+  (forall cs : list cmd,
+  let d := exec_all St Op V K step eval bdims cs (new_driver St Op V K h nx caller n c record) in
+  (forall a, a < nx -> heap d a = h a) /\ heap d caller = h caller /\
+  init_ref d = caller /\ state_ref d <> caller /\ nx <= state_ref d) /\
+  (forall (cs : list cmd) (f : St -> St) (e : evalt), valid e ->
+  let d := exec_total St Op V K step eval bdims (exec_total St Op V K step eval bdims
+             (caller_write St Op V K f (exec_all St Op V K step eval bdims cs (new_driver St Op V K h nx caller n c record))) Reset) (Run e) in
+  results d = Some (table_of St Op V step eval (c_ops Op K c) n e (f (h caller)))).
+Proof. exact (fun St Op V K step eval bdims h nx caller n c record H => conj (caller_state_untouched St Op V K step eval bdims h nx caller n c record H) (reset_uses_callers_object St Op V K step eval bdims h nx caller n c record H)). Qed.
+Print Assumptions C18_caller_state_untouched.
+
+(* after ANY history of commands: reset, run reproduces the record of the first run of a fresh driver
+   (in particular run; reset; run) — for every (deterministic) step and evaluation function *)
+Theorem C18_reset_rerun_same_record : forall (St Op V K : Type) (step : St -> St) (eval : Op -> St -> V)
+    (bdims : St -> list nat) (h : nat -> St) (nx caller n : nat) (c : container Op K) (record : bool),
+  caller < nx -> forall (cs : list cmd) (e : evalt), valid e ->
+  results (exec_all St Op V K step eval bdims (cs ++ [Reset; Run e]) (new_driver St Op V K h nx caller n c record))
+  = Some (table_of St Op V step eval (c_ops Op K c) n e (h caller)) /\
+  results (exec_all St Op V K step eval bdims [Run e] (new_driver St Op V K h nx caller n c record))
+  = Some (table_of St Op V step eval (c_ops Op K c) n e (h caller)).
+Proof. exact reset_rerun_same_record. Qed.
+Print Assumptions C18_reset_rerun_same_record.
+
+(* run twice without reset (what the code does): (1) the second run starts from the evolved state, the array is
+   allocated anew (the first record is dropped), its time labels start again at 0, 2n steps in total;
+   (2) the bond-dimension record of TTNTimeEvolution is never cleared: after run; reset; run (and after run; run) it
+   holds the snapshots of BOTH runs, so it is longer than the results array *)
+Theorem C18_run_twice_without_reset : forall (St Op V K : Type) (step : St -> St) (eval : Op -> St -> V)
+    (bdims : St -> list nat) (h : nat -> St) (nx caller n : nat) (c : container Op K) (record : bool),
+  caller < nx ->
+  forall e1 e2 : evalt, valid e1 -> valid e2 ->
+  (  let d := exec_all St Op V K step eval bdims [Run e1; Run e2] (new_driver St Op V K h nx caller n c record) in
+  results d = Some (table_of St Op V step eval (c_ops Op K c) n e2 (iter St step n (h caller))) /\
+  heap d (state_ref d) = iter St step n (iter St step n (h caller)) /\ heap d (init_ref d) = h caller) /\
+  (  let snaps := fun e s => map (fun i => iter St step i s) (eval_steps n e) in
+  bond (exec_all St Op V K step eval bdims [Run e1; Reset; Run e2] (new_driver St Op V K h nx caller n c record))
+  = bond_after St bdims (snaps e1 (h caller) ++ snaps e2 (h caller)) (if record then Some [] else None) /\
+  bond (exec_all St Op V K step eval bdims [Run e1; Run e2] (new_driver St Op V K h nx caller n c record))
+  = bond_after St bdims (snaps e1 (h caller) ++ snaps e2 (iter St step n (h caller))) (if record then Some [] else None)).
+Proof. exact (fun St Op V K step eval bdims h nx caller n c record H e1 e2 H1 H2 => conj (run_twice_without_reset St Op V K step eval bdims h nx caller n c record H e1 e2 H1 H2) (bond_record_accumulates St Op V K step eval bdims h nx caller n c record H e1 e2 H1 H2)). Qed.
+Print Assumptions C18_run_twice_without_reset.
+
+(* accessors on the record of a run: rows by position and by key, the time row under positions len(ops) and -1,
+   IndexError outside [-(len(ops)+1), len(ops)], times(), operator_results() *)
+Theorem C18_accessors : forall (St Op V K : Type) (step : St -> St) (eval : Op -> St -> V) (re : V -> V)
+    (keqb : K -> K -> bool) (d : driver St Op V K) (ops : list Op) (n : nat) (e : evalt) (s : St),
+  results d = Some (table_of St Op V step eval ops n e s) ->
+  (forall r o0 rl, r < length ops ->
+     operator_result St Op V K re keqb d (ByPos (Z.of_nat r)) rl
+     = Some (rl, if rl then map (real_cell V re) (op_row St Op V step eval n e s (nth r ops o0))
+                 else op_row St Op V step eval n e s (nth r ops o0))) /\
+  (forall k r rl, index_of keqb k (d_keys d) = Some r ->
+     operator_result St Op V K re keqb d (ByKey k) rl = operator_result St Op V K re keqb d (ByPos (Z.of_nat r)) rl) /\
+  operator_result St Op V K re keqb d (ByPos (Z.of_nat (length ops))) false = Some (false, time_row V n e) /\
+  operator_result St Op V K re keqb d (ByPos (-1)) false = Some (false, time_row V n e) /\
+  (forall i, (i < - Z.of_nat (length ops + 1) \/ Z.of_nat (length ops + 1) <= i)%Z ->
+     operator_result St Op V K re keqb d (ByPos i) false = None) /\
+  times St Op V K re d = Some (time_row V n e) /\
+  operator_results St Op V K re d false = Some (false, map (op_row St Op V step eval n e s) ops).
+Proof. exact accessors_after_run. Qed.
+Print Assumptions C18_accessors.
+
+(* non-vacuity: T/dt = 7, k = 3, dict {3: 2s+1, 0: 3s-1+i}; run; run; the caller adds 5 to its object; reset;
+   run('inf'); run(0) raises.  Records, states (7, 14, 14, 5, 12, 12), caller content, growing bond record. *)
+Example C18_state_machine_example :
+  map (fun x => match x with (r, t, s, s0, b, i0, i1) => (r, t, s, s0, i0, i1) end)
+      (cnt_trace [inl (Run (Every 3)); inl (Run (Every 3)); inr 5%Z; inl Reset; inl (Run Inf); inl (Run (Every 0))]
+                 (cnt_driver 7 (ODict [(3, (2, 1, 0)%Z); (0, (3, -1, 1)%Z)]) true))
+  = [(false, Some [[(1, 1, 0); (1, 7, 0); (1, 13, 0)]; [(1, -1, 1); (1, 8, 1); (1, 17, 1)]; [(2, 0, 0); (2, 3, 0); (2, 6, 0)]], 7, 0, true, false);
+     (false, Some [[(1, 15, 0); (1, 21, 0); (1, 27, 0)]; [(1, 20, 1); (1, 29, 1); (1, 38, 1)]; [(2, 0, 0); (2, 3, 0); (2, 6, 0)]], 14, 0, true, false);
+     (false, Some [[(1, 15, 0); (1, 21, 0); (1, 27, 0)]; [(1, 20, 1); (1, 29, 1); (1, 38, 1)]; [(2, 0, 0); (2, 3, 0); (2, 6, 0)]], 14, 5, true, false);
+     (false, Some [[(1, 15, 0); (1, 21, 0); (1, 27, 0)]; [(1, 20, 1); (1, 29, 1); (1, 38, 1)]; [(2, 0, 0); (2, 3, 0); (2, 6, 0)]], 5, 5, true, false);
+     (false, Some [[(1, 25, 0)]; [(1, 35, 1)]; [(2, 7, 0)]], 12, 5, true, false);
+     (true, Some [[(1, 25, 0)]; [(1, 35, 1)]; [(2, 7, 0)]], 12, 5, true, false)]%Z
+
+  /\ (* the hypotheses of the history theorems (caller < nx, valid e) are met; the bond record accumulates *)
+  0 < 1 /\ valid (Every 3) /\ valid Inf /\
+  bond (exec_all Z (Z * Z * Z) (Z * Z) nat Z.succ cnt_eval cnt_bdims [Run (Every 3); Reset; Run (Every 3)]
+          (cnt_driver 7 (OList [(2, 1, 0)%Z]) true))
+  = Some [[1; 4; 7; 1; 4; 7]; [1; 7; 13; 1; 7; 13]] /\
+  results (exec_all Z (Z * Z * Z) (Z * Z) nat Z.succ cnt_eval cnt_bdims [Run (Every 3); Reset; Run (Every 3)]
+          (cnt_driver 7 (OList [(2, 1, 0)%Z]) true))
+  = results (exec_all Z (Z * Z * Z) (Z * Z) nat Z.succ cnt_eval cnt_bdims [Run (Every 3)] (cnt_driver 7 (OList [(2, 1, 0)%Z]) true)).
+Proof.
+  split; [vm_compute; reflexivity|]. split; [repeat constructor|]. split; [unfold valid; repeat constructor|]. split; [exact I|].
+  split; vm_compute; reflexivity.
+Qed.
+Print Assumptions C18_state_machine_example.
+(* [/ext-C18X] *)
